@@ -144,6 +144,11 @@ func (c *Config) Get(format string) (info *Info, err error) {
 	if err = mergo.Merge(info, c.Info, mergo.WithOverride); err != nil {
 		return nil, fmt.Errorf("failed to merge config into info: %w", err)
 	}
+	// the copy made above shares pointer targets with the config: detach
+	// them so that merging an override cannot write through to the base
+	info.Deb.Signature.KeyID = copyString(info.Deb.Signature.KeyID)
+	info.RPM.Signature.KeyID = copyString(info.RPM.Signature.KeyID)
+	info.APK.Signature.KeyID = copyString(info.APK.Signature.KeyID)
 	override, ok := c.Overrides[format]
 	if !ok {
 		// no overrides
@@ -161,6 +166,13 @@ func (c *Config) Get(format string) (info *Info, err error) {
 	}
 	info.Contents = contents
 	return info, nil
+}
+
+func copyString(s *string) *string {
+	if s == nil {
+		return nil
+	}
+	return pointer.ToString(*s)
 }
 
 // Validate ensures that the config is well typed.
